@@ -1296,8 +1296,22 @@ class Analyzer:
                 st.add_le(me, v[2], 0)
             return
         if v[0] in ("sum", "diff", "rem"):
+            vn_key = None
+            if v[0] == "sum" and st.lin is not None and v[2][0] == "n" and v[3][0] == "n" and v[2][1] is not None and v[3][1] is not None:
+                # value numbering: the same sum of two unchanged symbolic values computed before (guard `a + b > len`,
+                # then `&data[a..a + b]`) is the same number
+                vn_key = tuple(sorted((v[2], v[3]), key=repr)) + ("+",)
+                for q, ab in st.lin.items():
+                    if ab == vn_key:
+                        c0 = self.canon(st, pj)
+                        if c0 is not None and (c0[0], c0[1]) != q and self.is_num(c0[2]):
+                            self.assign(st, pj, ("n", ("v", q[0], q[1]), 0))
+                            return
+                        break
             self.assign(st, pj, v[1])
             c = self.canon(st, pj)
+            if c is not None and vn_key is not None and self.is_num(c[2]):
+                st.lin[(c[0], c[1])] = vn_key
             if c is not None and self.is_num(c[2]):
                 me = ("n", ("v", c[0], c[1]), 0)
                 st.set_iv(me[1], *st.val_iv(v[1]))
